@@ -51,6 +51,16 @@ func (check fieldConstraints) checkRange(v val.Value, t *meta.Type) error {
 	if len(t.Range()) == 0 {
 		return nil
 	}
+	if v.Format().IsList() {
+		// each element of a leaf-list is a value of the type on its own
+		var err error
+		val.ForEach(v, func(_ int, item val.Value) {
+			if err == nil {
+				err = check.checkRange(item, t)
+			}
+		})
+		return err
+	}
 	// every level of the typedef chain restricts further: all must hold
 	for _, r := range t.Range() {
 		if err := r.CheckValue(v); err != nil {
